@@ -349,6 +349,61 @@ def check_indent_units(run: Run) -> None:
     run.instance("R03.10", pm.relpath, f"{n_cmp} comparisons on indentation widths, none against a column", ok=True)
 
 
+def check_indent_emission(run: Run) -> None:
+    """R03.11: an INDENT token stands in front of content only, and measures the whole run of leading spaces"""
+    import re._constants as sc  # type: ignore[import-not-found]
+    import re._parser as sp  # type: ignore[import-not-found]
+
+    from ..cfg import CFG, atomic_conditions
+
+    run.rule("R03.11", "INDENT is emitted for the whole run of leading spaces and only when content follows on the line: the construction of the INDENT token is reached only where the character after the run is known to be neither a space nor a newline (the counting loop has left on a non-space and `content[pos] != '\\n'` holds; or the run was taken by a regex ` +` with a look-ahead that excludes both) - otherwise a whitespace-only line yields an INDENT and closes the enclosing block", 1)
+    lx = run.project.mod("core.lexer")
+    fi = lx.func("tokenize")
+    cfg = CFG(fi.node)
+    sites = [c for c in walk_no_nested(fi.node) if isinstance(c, ast.Call) and isinstance(c.func, ast.Name) and c.func.id == "Token" and c.args and ast.unparse(c.args[0]).endswith("TokenType.INDENT")]
+    if not sites:
+        raise AnalysisError("tokenize: construction of the INDENT token not found")
+    for c in sites:
+        holder = next((n.id for n in cfg.nodes if n.ast is not None and n.kind == "stmt" and any(x is c for x in ast.walk(n.ast))), None)
+        conds = atomic_conditions(cfg, holder) if holder is not None else []
+        why = None
+        ok = False
+        # (a) counting loop + explicit newline test
+        not_nl = any(val and isinstance(t, ast.Compare) and isinstance(t.ops[0], ast.NotEq) and isinstance(t.comparators[0], ast.Constant) and t.comparators[0].value == "\n" and isinstance(t.left, ast.Subscript) for t, val in conds)
+        loops = [w for w in walk_no_nested(fi.node) if isinstance(w, ast.While) and any(isinstance(x, ast.Compare) and isinstance(x.ops[0], ast.Eq) and isinstance(x.comparators[0], ast.Constant) and x.comparators[0].value == " " and isinstance(x.left, ast.Subscript) for x in ast.walk(w.test))]
+        if not_nl and loops:
+            ok, why = True, "the counting loop leaves on a non-space and `content[pos] != newline` holds"
+        # (b) a regex match decides
+        if not ok:
+            for t, val in conds:
+                if not (val and isinstance(t, ast.Name)):
+                    continue
+                defs = [a.value for a in walk_no_nested(fi.node) if isinstance(a, ast.Assign) and any(isinstance(tg, ast.Name) and tg.id == t.id for tg in a.targets)]
+                for d in defs:
+                    if isinstance(d, ast.Call) and isinstance(d.func, ast.Attribute) and d.func.attr == "match" and isinstance(d.func.value, ast.Name) and lx.has_const(d.func.value.id):
+                        cn = lx.const_node(d.func.value.id)
+                        pat = run.project.try_fold(lx, cn.args[0]) if isinstance(cn, ast.Call) and cn.args else None
+                        if not isinstance(pat, str):
+                            continue
+                        items = list(sp.parse(pat))
+                        look = [av for op, av in items if op is sc.ASSERT and av[0] == 1]
+                        if len(items) == 2 and items[0][0] is sc.MAX_REPEAT and look:
+                            sub = list(look[0][1])
+                            import re as _re
+
+                            admits = [ch for ch in (" ", "\n") if _re.match("(?:" + pat + ")", " " + ch) is not None and _re.match("(?:" + pat + ")", " " + ch).end() == 1]  # type: ignore[union-attr]
+                            if not admits:
+                                ok, why = True, f"the run is taken by {pat!r}, whose look-ahead excludes space and newline"
+                            else:
+                                why = f"the run is taken by {pat!r}, whose look-ahead is also satisfied by {admits!r}: on a line of two or more spaces and nothing else the match backs off by one space and an INDENT is emitted for a blank line"
+                            del sub
+        if why is None:
+            raise AnalysisError("tokenize: the condition under which the INDENT token is built is not in a form this check reads (counting loop + newline test, or a ` +` regex with a look-ahead); R03.11 is not decided")
+        run.instance("R03.11", lx.loc(c), f"tokenize: INDENT token: {why}", ok=ok)
+        if not ok:
+            run.violation("R03.11", lx, "tokenize", c, f"an INDENT token can be emitted for a whitespace-only line: {why}. The parser reads an INDENT smaller than the block's child indent as a dedent, so a blank line carrying left-over spaces closes the block - two inputs that differ only in trailing spaces on a blank line no longer canonicalise to the same bytes")
+
+
 def check(run: Run) -> None:
     lm = lexmodel.build(run.project)
     tt = enum_members(run.project, "core.lexer", "TokenType")
@@ -357,6 +412,7 @@ def check(run: Run) -> None:
     check_shadowing(run, lm)
     check_emitter_profile(run, lm)
     c01.check_indent(run, "R03.5")
+    check_indent_emission(run)
     check_blank_lines(run, pmodel)
     check_structure_detection(run, lm)
     check_optional_envelope(run)
